@@ -38,6 +38,9 @@ pub struct FCase {
     pub filler: Option<(u32, PStep)>,
     pub faults: Vec<Fault>,
     pub extra_polls: usize,
+    /// Empty / Pending steps after the last data byte of every range stream.
+    #[serde(default)]
+    pub tail: Vec<PStep>,
 }
 
 impl FCase {
@@ -79,6 +82,7 @@ impl FCase {
                 headers: vec![],
                 plan,
                 faults: if with_faults { self.faults.clone() } else { vec![] },
+                tail: self.tail.clone(),
             },
             req,
         )
@@ -131,6 +135,7 @@ pub fn fault_label(c: &FCase) -> String {
         Some(FaultKind::Error) => "error",
         Some(FaultKind::ExtraByte) => "extra-byte",
         Some(FaultKind::ExtraChunk) => "extra-chunk",
+        Some(FaultKind::ErrorAfterEnd) => "error-after-end",
     };
     let s = match c.shape {
         Shape::Full => "200".to_string(),
@@ -204,7 +209,15 @@ pub fn check(c: &FCase, acc: &mut Acc) -> Check {
             let term = f.trace.terminal();
             match term {
                 Some(Ev::Err(e)) => {
-                    if fl.kind == FaultKind::Error {
+                    if fl.kind == FaultKind::ErrorAfterEnd {
+                        ensure!(
+                            *e == HarnessError::Injected(fl.call * 1000 + 999),
+                            format!("wrong-error:{label}"),
+                            "the entity failed after its last byte with Injected({}) but the body reported {e:?}; {}",
+                            fl.call * 1000 + 999,
+                            what()
+                        );
+                    } else if fl.kind == FaultKind::Error {
                         ensure!(
                             *e == HarnessError::Injected(fl.call * 1000 + fl.chunk),
                             format!("wrong-error:{label}"),
@@ -305,17 +318,34 @@ pub fn enumerate(len: u32, max_chunks: usize, extra_polls: &[usize], mut f: impl
                 chunk: 0,
                 kind: FaultKind::ExtraChunk,
             }));
+            faults.push(Some(Fault {
+                call,
+                chunk: 0,
+                kind: FaultKind::ErrorAfterEnd,
+            }));
             for fault in faults {
-                let at = fault.map_or(0, |x| if x.kind == FaultKind::ExtraChunk { m - 1 } else { x.chunk });
+                let after_end = fault.map_or(true, |x| matches!(x.kind, FaultKind::ExtraChunk | FaultKind::ErrorAfterEnd));
+                let at = fault.map_or(0, |x| if after_end { m - 1 } else { x.chunk });
+                let tails: Vec<Vec<PStep>> = if after_end {
+                    vec![vec![], vec![PStep::Pending], vec![PStep::Empty], vec![PStep::Pending, PStep::Empty, PStep::Pending]]
+                } else {
+                    vec![vec![]]
+                };
                 for filler in [None, Some((at, PStep::Pending)), Some((at, PStep::Empty))] {
-                    for &extra in extra_polls {
-                        f(FCase {
-                            shape,
-                            chunks: chunks.clone(),
-                            filler,
-                            faults: fault.into_iter().collect(),
-                            extra_polls: extra,
-                        });
+                    for tail in &tails {
+                        if filler.is_some() && !tail.is_empty() {
+                            continue;
+                        }
+                        for &extra in extra_polls {
+                            f(FCase {
+                                shape,
+                                chunks: chunks.clone(),
+                                filler,
+                                faults: fault.into_iter().collect(),
+                                tail: tail.clone(),
+                                extra_polls: extra,
+                            });
+                        }
                     }
                 }
             }
@@ -329,12 +359,13 @@ pub fn random_strategy() -> BoxedStrategy<FCase> {
         prop_oneof![Just(Shape::Full), Just(Shape::Single), (2u8..=8).prop_map(Shape::Multi)],
         proptest::option::of((0u32..8, prop_oneof![Just(PStep::Pending), Just(PStep::Empty)])),
         proptest::collection::vec(
-            (0u32..8, 0u32..8, prop_oneof![Just(FaultKind::EndEarly), Just(FaultKind::Error), Just(FaultKind::ExtraByte), Just(FaultKind::ExtraChunk)]),
+            (0u32..8, 0u32..8, prop_oneof![Just(FaultKind::EndEarly), Just(FaultKind::Error), Just(FaultKind::ExtraByte), Just(FaultKind::ExtraChunk), Just(FaultKind::ErrorAfterEnd)]),
             0..3,
         ),
         0usize..=4,
+        proptest::collection::vec(prop_oneof![Just(PStep::Pending), Just(PStep::Empty)], 0..3),
     )
-        .prop_map(|(chunks, shape, filler, faults, extra_polls)| {
+        .prop_map(|(chunks, shape, filler, faults, extra_polls, tail)| {
             let parts = match shape {
                 Shape::Multi(n) => n as u32,
                 _ => 1,
@@ -355,6 +386,7 @@ pub fn random_strategy() -> BoxedStrategy<FCase> {
                 filler: filler.map(|(i, s)| (i % m, s)),
                 chunks,
                 faults: fs,
+                tail,
                 extra_polls,
             }
         })
@@ -386,7 +418,7 @@ pub fn replay(_cx: &Cx, _phase: &str, case: &Value, acc: &mut Acc) -> Check {
 
 pub fn health(acc: &Acc) -> Vec<String> {
     let mut v = Vec::new();
-    for k in ["early-end", "error", "extra-byte", "extra-chunk"] {
+    for k in ["early-end", "error", "extra-byte", "extra-chunk", "error-after-end"] {
         for s in ["200", "206", "multipart-part1", "multipart-part2", "multipart-part3"] {
             let l = format!("{k}:{s}");
             if acc.label(&l) < 10 {
